@@ -55,11 +55,11 @@ func c20Stuck(queueLen func() int) (int, string) {
 	if queueLen() != 0 {
 		return 0, ""
 	}
-	gs := stableDump(150 * time.Millisecond)
+	gs, all := dumpPair(150 * time.Millisecond)
 	if queueLen() != 0 {
 		return 0, ""
 	}
-	ms := maintenanceState(gs)
+	ms := maintenanceStatePair(gs, all)
 	if ms == "busy" {
 		return 0, ""
 	}
